@@ -34,29 +34,39 @@ def run(repo: Repo, chk: Check):
     chk.saw("generate_code", qual)
     cfg, rd = fn_ctx(fn)
     where = f"{g.path}:{fn.lineno} in {qual}"
-    appends = [c for c in ast.walk(fn) if isinstance(c, ast.Call) and isinstance(c.func, ast.Attribute) and c.func.attr in ("append", "extend", "insert")
-               and norm(c.func.value) == "self.code"]
-    aug = [a for a in ast.walk(fn) if isinstance(a, ast.AugAssign) and norm(a.target) == "self.code"]
-    if not appends and not aug:
-        raise AnalysisError("CompilerPassGatherCode.run: no append to self.code found")
-    # the region loop
-    loops = []
-    for c in appends:
-        p = c
-        chain = []
-        while p is not None and p is not fn:
-            if isinstance(p, ast.For):
-                chain.append(p)
-            p = getattr(p, "parent", None)
-        loops.append(chain)
-    region_loops = [ch[-1] for ch in loops if ch]
-    if not region_loops:
-        raise AnalysisError("CompilerPassGatherCode.run: appends to self.code are not inside a loop over the regions")
-    rl = region_loops[0]
-    it = rl.iter
-    ok_sorted = isinstance(it, ast.Call) and norm(it.func) == "sorted" and not it.keywords and len(it.args) == 1 and "functions" in norm(it.args[0])
-    chk.judge("R07.a", "generate_code:run:regions are emitted in sorted key order", ok_sorted,
-              f"the region loop iterates {norm(it)}: the main region (key '') is first only in plain sorted order of the keys", {"iter": norm(it)}, where)
+    from .shared import gather_model, emission_table
+    _, ems = gather_model(repo)
+    if not ems:
+        raise AnalysisError("CompilerPassGatherCode.run: no statement that adds lines to self.code found")
+    # the region order
+
+    def key_order(call):
+        """sorted(<functions>) / sorted(<functions>.keys()) / sorted(<functions>.items()[, key=lambda it: it[0]]) ascending"""
+        if call is None or len(call.args) != 1:
+            return False, "?"
+        src = call.args[0]
+        kw = {k.arg: k.value for k in call.keywords}
+        if "reverse" in kw and not (isinstance(kw["reverse"], ast.Constant) and kw["reverse"].value is False):
+            return False, norm(call)
+        base = src
+        items = False
+        if isinstance(src, ast.Call) and isinstance(src.func, ast.Attribute) and src.func.attr in ("keys", "items") and not src.args:
+            base = src.func.value
+            items = src.func.attr == "items"
+        if "functions" not in norm(base):
+            return False, norm(call)
+        if "key" in kw:
+            k = kw["key"]
+            by_first = isinstance(k, ast.Lambda) and len(k.args.args) == 1 and isinstance(k.body, ast.Subscript) and isinstance(k.body.value, ast.Name) \
+                and k.body.value.id == k.args.args[0].arg and isinstance(k.body.slice, ast.Constant) and k.body.slice.value == 0
+            ident = isinstance(k, ast.Lambda) and len(k.args.args) == 1 and isinstance(k.body, ast.Name) and k.body.id == k.args.args[0].arg
+            return (by_first if items else ident), norm(call)
+        return True, norm(call)
+    for em in ems:
+        ok_sorted, txt = key_order(em.order)
+        chk.judge("R07.a", "generate_code:run:regions are emitted in sorted key order", ok_sorted,
+                  f"the regions that reach self.code are drawn from {[norm(x)[:80] for x in em.sources] or 'no loop at all'}: the main region (key '') is first only in "
+                  f"plain ascending order of the keys of the function table", {"order": txt}, where)
     # main key is ""
     main_keys = [st for st in ast.walk(fn) if isinstance(st, ast.Assign) and any(isinstance(t, ast.Subscript) and "functions" in norm(t.value) for t in st.targets)]
     okk = bool(main_keys) and all(isinstance(t.slice, ast.Constant) and t.slice.value == "" for st in main_keys for t in st.targets if isinstance(t, ast.Subscript))
@@ -65,15 +75,16 @@ def run(repo: Repo, chk: Check):
     before = bool(main_keys) and all(main_keys[0].lineno < v.lineno for v in visit)
     chk.judge("R07.a", "generate_code:run:the main region is registered under the key '' before code is gathered", okk and before,
               f"main region key is {[norm(t) for st in main_keys for t in st.targets]}", None, where)
-    others = [c for c, ch in zip(appends, loops) if not ch or ch[-1] is not rl]
-    chk.judge("R07.a", "generate_code:run:nothing is emitted outside the region loop", not others and not aug,
-              f"self.code also receives lines at {[norm(c)[:60] for c in others] + [norm(a)[:60] for a in aug]}", None, where)
+    others = [em for em in ems if em.order is None]
+    chk.judge("R07.a", "generate_code:run:nothing is emitted outside the region loop", not others and len({norm(em.order) for em in ems if em.order is not None}) <= 1,
+              f"self.code also receives lines at {[norm(em.stmt)[:60] for em in others] or [norm(em.stmt)[:60] for em in ems]}", None, where)
+    for em in ems:
+        rows, free = emission_table(em)
+        if not free:
+            chk.judge("R07.a", "generate_code:run:the main region is always emitted", all(e for a, e in rows if a["M"] and not a["X"]),
+                      f"under the guards {em.guard_text()} the main region is not emitted", None, where)
     # the condition under which a region is emitted
-    emit_guard = None
-    for c in appends:
-        ids = live_ids(cfg, c)
-        if ids:
-            emit_guard = [norm(t) + ("" if p else " is False") for t, p in guard_atoms(cfg, ids[0])]
+    emit_guard = ems[0].guard_text()
     # ------------------------------------------------------------ R07.b
     term = []
     for s in collect_sites(repo, ["generate_code"]):
